@@ -86,6 +86,7 @@ type Ctx struct {
 	gwCache map[*ssa.Global]bool
 	bce     map[string]bool
 	powerCache *powerSrc
+	lexPrims [3]*ssa.Function
 	scopeMemo map[*ssa.Function]map[string]bool
 	expandDepth int
 	writesParserMemo map[*ssa.Function]bool
